@@ -97,7 +97,7 @@ func (e *Env) recordUpdates() []upd {
 func c10(e *Env) {
 	r := e.R
 	r.Explanation = "Field-by-field value-flow of the audit record built after a task ran (the function in Execute's call tree that calls NewAuditInfo), resolved through the calling context up to Task.Execute: (R1) Command ← Task.Command (the very field the runner executes), ProcessName ← the task's process name, Params ← Task.Params, StartTime/FinishTime ← two time.Now() results taken on all paths before resp. after the command, ExecTimeNS ← finish.Sub(start) in that orientation, OutFiles[port] ← FileIP.Path for every out-IP, Upstream[Path(in)] ← in.AuditInfo() for every in-IP and for every member of a joined sub-stream (unconditional, complete loops), ID ← random id in NewAuditInfo; (R2) for every out-IP: SetAuditInfo(record), tags of every in-IP merged, record written to <Path>.audit.json (complete loops); (R3) marshal/write errors are fatal (C09.R2, re-evaluated); (R4) a record's Tags map is only ever a fresh map (never another record's map), so tags attached on one branch cannot leak into sibling or upstream records; task tags are derived from the tags of every in-IP; (R5) no update of the record is reachable from a write of the record (complete before the first output's audit file is written)."
-	r.NotDecided = "that the JSON tree of a concrete run equals its true lineage; tags of sub-stream members are not merged into the record's own Tags (they may legitimately conflict) - noted, not flagged; the audit link of a streaming consumer that finishes before its producer (a schedule-dependent runtime fact)."
+	r.NotDecided = "that the JSON tree of a concrete run equals its true lineage; tags of sub-stream members are not merged into the record's own Tags (they may legitimately conflict) - noted, not flagged; whether a streaming consumer really finishes before its producer is a schedule fact - that nothing orders the two is decided (R6, known finding K10)."
 	a := e.anchors()
 	if !a.ok() {
 		return
@@ -441,6 +441,8 @@ func c10(e *Env) {
 	if nW == 0 {
 		ob5.Unknown("-", "no marshal/write of the audit record found")
 	}
+	// ---- R6 the record is attached before the IP is published (shared with C17.R5)
+	e.recordBeforePublish("R6")
 }
 
 // fieldBaseType: the named struct type whose field is loaded by v.
